@@ -181,3 +181,24 @@ def _fork_map(fn, tasks, nproc):
             except OSError:
                 pass
         sel.close()
+
+
+def in_interpreter(flags, module: str, func: str, arg, timeout: int = 900):
+    """Run ``module.func(arg)`` in a brand-new interpreter started with ``flags`` (e.g. ["-O"]) and
+    return its picklable result (a Part dict).  The library must behave the same whatever the
+    interpreter options are."""
+    import base64
+    import subprocess
+    import sys
+    from .report import VERIF
+    code = ("import base64,pickle,sys,importlib;"
+            f"m=importlib.import_module({module!r});"
+            "arg=pickle.loads(base64.b64decode(sys.stdin.read()));"
+            f"res=getattr(m,{func!r})(arg);"
+            "sys.stdout.write('RESULT='+base64.b64encode(pickle.dumps(res)).decode())")
+    p = subprocess.run([sys.executable, *flags, "-c", code], input=base64.b64encode(pickle.dumps(arg)).decode(),
+                       capture_output=True, text=True, cwd=str(VERIF), timeout=timeout)
+    line = [ln for ln in p.stdout.splitlines() if ln.startswith("RESULT=")]
+    if p.returncode != 0 or not line:
+        raise HarnessError(f"interpreter {flags} running {module}.{func} failed: {p.stderr[-1500:]}")
+    return pickle.loads(base64.b64decode(line[-1][7:]))
